@@ -105,9 +105,13 @@ class DeleteField(BaseModelFieldMutation):
                              related_model=field_sig.related_model)
 
         if isinstance(field, models.ManyToManyField):
+            # The dropped table is independent of the model's own table,
+            # so this must not split up a batch of changes to the model's
+            # table.
             mutator.add_sql(
                 self,
                 mutator.evolver.delete_table(
-                    field._get_m2m_db_table(model._meta)))
+                    field._get_m2m_db_table(model._meta)),
+                mergeable=True)
         else:
             mutator.delete_column(self, field)
